@@ -83,8 +83,8 @@ Example C03_instance :
      option_map (fun x => (fst (fst x), snd x)) (drunm_t (parse_lr_t G 20) (memo_empty cap) ps)
        = option_map (fun o => (o, fl0)) (drun (parse (step G) 20) ps)).
 Proof.
-  vm_compute. split; [reflexivity|]. split; [eexists; eexists; reflexivity|].
-  intros cap [<-|[<-|[<-|[]]]]; split; reflexivity.
+  intros. split; [vm_compute; reflexivity|]. split; [vm_compute; eexists; eexists; reflexivity|].
+  intros cap [<-|[<-|[<-|[]]]]; vm_compute; split; reflexivity.
 Qed.
 
 (* ... and the flag discriminates: E <<= E + '+' + N | N on "1+2+3" reads its seed (the hypothesis of C03_transparent is
@@ -102,7 +102,7 @@ Example C03_flag_discriminates :
   ids_consistent [(30, 0)] G E = true /\
   parse (step G) 30 ar = None /\
   exists r m' fl, parse_lr_t G 30 (memo_empty None) ar = Some (Ok 5 r, m', fl) /\ seed_read fl = true.
-Proof. vm_compute. split; [reflexivity|]. split; [reflexivity|]. do 3 eexists. split; reflexivity. Qed.
+Proof. intros. vm_compute. split; [reflexivity|]. split; [reflexivity|]. do 3 eexists. split; reflexivity. Qed.
 
 (* 5. the property as worded is refuted by the faithful model: four mechanisms, each on a grammar WITHOUT left recursion
       (the only Forward's body contains no Forward), each raising exactly one flag, each confirmed on the implementation.
@@ -126,8 +126,9 @@ Theorem C03_stale_seed_refuted :
     parse (step G) 20 ar = Some o1 /\ parse_lr_t G 20 (memo_empty cap) ar = Some (o2, m', fl) /\ o1 <> o2 /\
     fl = Build_flags true false false false false false.
 Proof.
-  vm_compute. split; [reflexivity|].
-  intros cap [<-|[<-|[]]]; do 4 eexists; (split; [reflexivity|]); (split; [reflexivity|]); (split; [discriminate|reflexivity]).
+  intros. split; [vm_compute; reflexivity|].
+  intros cap [<-|[<-|[]]]; vm_compute; do 4 eexists; (split; [reflexivity|]); (split; [reflexivity|]);
+    (split; [discriminate|reflexivity]).
 Qed.
 
 (* F-03c, the failed action pass overwrites the do_actions=False entry: F <<= Word("ab").add_condition(false);
@@ -148,8 +149,9 @@ Theorem C03_peek_taint_refuted :
     parse (step G) 20 ar = Some o1 /\ parse_lr_t G 20 (memo_empty cap) ar = Some (o2, m', fl) /\ o1 <> o2 /\
     fl = Build_flags false false true false false false.
 Proof.
-  vm_compute. split; [reflexivity|].
-  intros cap [<-|[<-|[]]]; do 4 eexists; (split; [reflexivity|]); (split; [reflexivity|]); (split; [discriminate|reflexivity]).
+  intros. split; [vm_compute; reflexivity|].
+  intros cap [<-|[<-|[]]]; vm_compute; do 4 eexists; (split; [reflexivity|]); (split; [reflexivity|]);
+    (split; [discriminate|reflexivity]).
 Qed.
 
 (* F-03d, the normal do_actions=True exit replaces the do_actions=False entry by the action-pass answer:
@@ -174,8 +176,9 @@ Theorem C03_peek_replaced_refuted :
     parse (step G) 20 ar = Some o1 /\ parse_lr_t G 20 (memo_empty cap) ar = Some (o2, m', fl) /\ o1 <> o2 /\
     fl = Build_flags false false false true false false.
 Proof.
-  vm_compute. split; [reflexivity|].
-  intros cap [<-|[<-|[]]]; do 4 eexists; (split; [reflexivity|]); (split; [reflexivity|]); (split; [discriminate|reflexivity]).
+  intros. split; [vm_compute; reflexivity|].
+  intros cap [<-|[<-|[]]]; vm_compute; do 4 eexists; (split; [reflexivity|]); (split; [reflexivity|]);
+    (split; [discriminate|reflexivity]).
 Qed.
 
 (* F-03e, the exception of the do_actions=False pass is re-raised to a do_actions=True caller:
@@ -196,6 +199,7 @@ Theorem C03_peek_error_refuted :
     parse (step G) 20 ar = Some o1 /\ parse_lr_t G 20 (memo_empty cap) ar = Some (o2, m', fl) /\ o1 <> o2 /\
     fl = Build_flags false false false false true false.
 Proof.
-  vm_compute. split; [reflexivity|].
-  intros cap [<-|[<-|[]]]; do 4 eexists; (split; [reflexivity|]); (split; [reflexivity|]); (split; [discriminate|reflexivity]).
+  intros. split; [vm_compute; reflexivity|].
+  intros cap [<-|[<-|[]]]; vm_compute; do 4 eexists; (split; [reflexivity|]); (split; [reflexivity|]);
+    (split; [discriminate|reflexivity]).
 Qed.
